@@ -34,7 +34,7 @@ func init() {
 			"client side: hostile responses (mutated, truncated, reset) read by the real HostClient incl. redirects, Set-Cookie and Location parsing; only panics and hangs are judged there",
 			"a parse-level rejection is recognised as: last response on the connection is 400/413/408, no handler ran for it and Engine.Serve returned a non-nil error",
 		},
-		RequiredProbes: []string{"mut-flip", "mut-insert", "mut-delete", "mut-dup", "mut-token", "truncate", "rst", "rejected", "too-large", "too-large-multipart", "too-large-chunked", "hostile-chunk-size", "fs-route", "multipart", "cookie", "trailer", "recovery-engine", "default-engine", "client-side", "too-large-expect", "invalid-content-length", "trailer-zero-name", "huge-body", "router-mode", "route-request", "forwarded-prefix", "redirected"},
+		RequiredProbes: []string{"mut-flip", "mut-insert", "mut-delete", "mut-dup", "mut-token", "truncate", "rst", "rejected", "too-large", "too-large-multipart", "too-large-chunked", "hostile-chunk-size", "fs-route", "multipart", "cookie", "trailer", "recovery-engine", "default-engine", "client-side", "stall-mid-request", "too-large-expect", "invalid-content-length", "trailer-zero-name", "huge-body", "router-mode", "route-request", "forwarded-prefix", "redirected"},
 	}
 }
 
@@ -171,6 +171,11 @@ func RunC03(ep *core.Episode) {
 		o.MaxBody = 4 << 20
 		ep.Probe("huge-body")
 	}
+	if router || huge {
+		// (later modes) read and idle deadlines, so that a peer that stops sending mid-request gets its 408
+		o.ReadTimeout = 80 * time.Millisecond
+		o.IdleTimeout = 10 * time.Second
+	}
 	withRecovery := tp.Choose("recovery", 2) == 1
 	if withRecovery {
 		ep.Probe("recovery-engine")
@@ -255,6 +260,7 @@ func RunC03(ep *core.Episode) {
 	var bounds []int
 	var methods []string
 	tooLargeAt := -1
+	var reqStart []int
 	zeroTrailer := false
 	badCLAt := -1 // request carrying a syntactically invalid Content-Length (and no Transfer-Encoding)
 	for i := 0; i < n; i++ {
@@ -439,6 +445,7 @@ func RunC03(ep *core.Episode) {
 		for _, x := range bs {
 			bounds = append(bounds, len(stream)+x)
 		}
+		reqStart = append(reqStart, len(stream))
 		stream = append(stream, b...)
 		methods = append(methods, m.Method)
 	}
@@ -457,9 +464,40 @@ func RunC03(ep *core.Episode) {
 	cl.NoInterim = false
 	cl.CloseWhenDone = false
 	cl.FinWhenQuiet = true
-	endKind := tp.Weighted("endkind", []int{5, 2, 2})
+	ew := []int{5, 2, 2}
+	if (router || huge) && valid && n >= 2 && !anyToken && tooLargeAt < 0 && badCLAt < 0 {
+		ew = append(ew, 3) // stall: the peer goes silent in the middle of the second or a later request
+	}
+	endKind := tp.Weighted("endkind", ew)
 	injectedAbort := false
+	stalled := false
+	_ = stalled
 	switch endKind {
+	case 3:
+		k := 1 + tp.Choose("stallreq", n-1)
+		if methods[k] == "HEAD" {
+			// the 408 for a request that never arrived completely carries a body; whether the few bytes that did
+			// arrive make it "a response to HEAD" is not this check's question
+			endKind = 0
+			cl.Sends = []Send{{Data: stream, Label: "stream"}}
+			break
+		}
+		lo, hi := reqStart[k]+4, len(stream)-1
+		if k+1 < n {
+			hi = reqStart[k+1] - 1
+		}
+		if hi <= lo {
+			hi = lo + 1
+		}
+		cut := lo + tp.Choose("stallcut", hi-lo)
+		if cut > len(stream)-1 {
+			cut = len(stream) - 1
+		}
+		cl.Sends = []Send{{Data: stream[:cut], Label: "then-silence"}}
+		cl.FinWhenQuiet = false
+		stalled = true
+		endKind = 1 // for the oracles below: an incomplete stream
+		ep.Fault("stall-mid-request")
 	case 0:
 		cl.Sends = []Send{{Data: stream, Label: "stream"}}
 	case 1: // truncate + FIN
@@ -602,8 +640,18 @@ func parseLenient(rx []byte, methods []string, idx int, eof bool) ([]*wire.Msg, 
 	}
 	for _, m := range cands {
 		msg, n, err := wire.ParseResponse(rx, m, eof)
-		if err != nil || msg.Status == 100 {
+		if err != nil {
 			continue
+		}
+		if msg.Status == 100 {
+			// an interim response: not the answer to a request
+			rest, ends, ok := parseLenient(rx[n:], methods, idx, eof)
+			if ok {
+				for i := range ends {
+					ends[i] += n
+				}
+			}
+			return rest, ends, ok
 		}
 		rest, ends, ok := parseLenient(rx[n:], methods, idx+1, eof)
 		if ok {
